@@ -92,11 +92,14 @@ fn check_elementwise(act: Act, xs: &[f32], fwd: &[f32], bwd: &[f32], out: &mut O
                 let t = xf.tanh();
                 if !(-1.0..=1.0).contains(&y) {
                     report(out, "forward", "range", x, y, "a value in [-1,1]".into());
-                } else if !close(y, t, 1e-5, 1e-7) {
+                } else if !close(y, t, 1e-5, 1.5e-45) {
+                    // relative down to the sub-normals: tanh(x) = x(1 - x^2/3 ...) near zero
                     report(out, "forward", "value", x, y, format!("{:e}", t));
                 }
                 let c = xf.cosh();
-                if !close(d, 1.0 / (c * c), 1e-5, 1e-6) {
+                // relative in the tails as well (8e-9 at |x| = 10); beyond |x| = 45.05 cosh^2
+                // overflows in single precision and the value (< 3e-39) may be 0
+                if !close(d, 1.0 / (c * c), 1e-5, 4e-39) {
                     report(out, "backward", "value", x, d, format!("{:e}", 1.0 / (c * c)));
                 }
             }
@@ -238,7 +241,7 @@ impl Monitor for C07 {
         }
     }
     fn rule(&self) -> &'static str {
-        "sweep: case k = all bit patterns k*2^20 .. (k+1)*2^20, non-finite ones skipped, through forward and backward of ReLU, LeakyReLU, Sigmoid, Tanh, Linear (public API, one tensor per chunk; every 16th chunk as a 3-D tensor) against f64 oracles (value 1e-5 relative + 1e-7 absolute for tanh, 1e-5 relative + 4e-39 for sigmoid - its negative tail is judged relatively down to where exp(-x) overflows -, derivative 1e-5 relative + 1e-6 absolute, for sigmoid at x <= 0 1e-5 relative + 4e-39, never NaN/inf, sigmoid in [0,1], tanh in [-1,1], either one-sided derivative at +-0); distinct = number of distinct finite bit patterns. stratified: per (sign, exponent) 2^15 mantissas incl. all-zeros and all-ones. rank: random CxHxW tensors, both the 3-D and the flat path are compared with the oracle (same tolerances) and must preserve the shape field and the nesting. softmax: 100 vectors per case from 8 families (moderate, huge +-3e38, all-equal, one-dominant, denormal, long-tail, large-offset, wide), lengths 1..64 and (every tenth vector) 65..4097, flat and 3-D: finite, >= 0, sum 1, equals f64 soft-max (1e-5 + n*eps relative), shift-invariant, arg-max preserved."
+        "sweep: case k = all bit patterns k*2^20 .. (k+1)*2^20, non-finite ones skipped, through forward and backward of ReLU, LeakyReLU, Sigmoid, Tanh, Linear (public API, one tensor per chunk; every 16th chunk as a 3-D tensor) against f64 oracles (value 1e-5 relative + 1.5e-45 for tanh, 1e-5 relative + 4e-39 for sigmoid - its negative tail is judged relatively down to where exp(-x) overflows -, derivative 1e-5 relative + 1e-6 absolute for sigmoid at x > 0 (formed from 1-y), 1e-5 relative + 4e-39 for sigmoid at x <= 0 and for tanh (its tails are judged relatively up to where cosh^2 overflows), never NaN/inf, sigmoid in [0,1], tanh in [-1,1], either one-sided derivative at +-0); distinct = number of distinct finite bit patterns. stratified: per (sign, exponent) 2^15 mantissas incl. all-zeros and all-ones. rank: random CxHxW tensors, both the 3-D and the flat path are compared with the oracle (same tolerances) and must preserve the shape field and the nesting. softmax: 100 vectors per case from 8 families (moderate, huge +-3e38, all-equal, one-dominant, denormal, long-tail, large-offset, wide), lengths 1..64 and (every tenth vector) 65..4097, flat and 3-D: finite, >= 0, sum 1, equals f64 soft-max (1e-5 + n*eps relative), shift-invariant, arg-max preserved."
     }
     fn assumptions(&self) -> Vec<&'static str> {
         vec!["f64 libm is the oracle for exp/tanh/cosh", "soft-max backward is not part of C07 (it belongs to C01)"]
